@@ -59,6 +59,47 @@ fn roundtrip_case(t: &Tables, s: &str, order: u64, site: &str, state: &str, acc:
         format!("{s:?} -> {} -> {dec:?} (expected {expected:?}; character U+{:04X}, first page that has it: {home})", hex(&enc), bad as u32), replay);
 }
 
+
+/// Judge the decoder on one byte string against the reference decoder (strings with an escaped
+/// caret belong to C12).
+fn judge_bytes(tt: &Tables, b: &[u8], i: u64, site: &str, acc: &mut crate::report::Acc) {
+    let b = b.to_vec();
+        if b.windows(2).any(|w| w == b"^^") {
+            return;
+        }
+        acc.eval();
+        let replay = json!({"site": site, "index": i, "input": hex(&b[..b.len().min(96)]), "length": b.len()});
+        let got = match guard(|| to_lossy_string(&b).to_string()) {
+            Ok(g) => g,
+            Err(p) => {
+                acc.class("decode-panic");
+                acc.violate(i, "C10|decode|panic".into(), format!("to_lossy_string({}) panicked: {p}", hex(&b[..b.len().min(96)])), replay);
+                return;
+            },
+        };
+        let Some(want) = tt.ref_decode(&b) else { acc.class("reference-undefined"); return; };
+        // cell identity of the double-byte pages is judged by the table sites (by agreement
+        // ratio); here only the structure matters once a DBCS page has been selected
+        let dbcs_used = b.windows(2).any(|w| w[0] == b'^' && matches!(w[1], b'J' | b'S' | b'K' | b'H'));
+        let norm = |s: &str| -> String { s.chars().map(|c| if (c as u32) < 0x80 { c } else { '#' }).collect() };
+        if got == want || (dbcs_used && norm(&got) == norm(&want) && !got.contains('\u{fffd}')) {
+            acc.class("matches");
+            acc.key(h64(&b));
+            return;
+        }
+        acc.class("differs");
+        let bom = b.windows(2).any(|w| w == [0xff, 0xfe] || w == [0xfe, 0xff]) || b.windows(3).any(|w| w == [0xef, 0xbb, 0xbf]);
+        let lost8 = want.matches("^8").count() != got.matches("^8").count();
+        let letters: String = {
+            let mut v: Vec<char> = b.windows(2).filter(|w| w[0] == b'^' && LETTERS.contains(&(w[1] as char))).map(|w| w[1] as char).collect();
+            v.sort(); v.dedup(); v.into_iter().collect()
+        };
+        let sig = if bom { "C10|decode|byte-order-mark-sniffed".to_string() }
+            else if lost8 { "C10|decode|caret-8-not-kept".to_string() }
+            else { format!("C10|decode|differs-from-windows-page|markers-{letters}") };
+        acc.violate(i, sig, format!("to_lossy_string({}) = {got:?}, the Windows pages give {want:?}", hex(&b[..b.len().min(96)])), replay);
+}
+
 pub fn sites(tier: Tier) -> Vec<Site> {
     let t = Arc::new(Tables::load());
     let mut sites = vec![];
@@ -229,7 +270,26 @@ pub fn sites(tier: Tier) -> Vec<Site> {
         }
         alpha.push('\u{e9}'); // shared by several single-byte pages
         alpha.push('\u{e01}'); // in no page
-        let maxlen = if tier == Tier::Thorough { 5 } else { 4 };
+        // characters whose ENCODED form holds a byte that means something to the scanners: a
+        // double-byte character with trail byte 0x5E in each double-byte page, one whose trail byte
+        // looks like a lead byte; and the plain characters a caret would turn into a marker
+        for l in ['J', 'S', 'K', 'H'] {
+            let mut cells: Vec<(&(u8, u8), &char)> = t.pages[&l].double.iter().collect();
+            cells.sort();
+            if let Some((_, c)) = cells.iter().find(|((_, trail), c)| *trail == b'^' && !alpha.contains(c)) {
+                alpha.push(**c);
+            }
+        }
+        {
+            let mut cells: Vec<(&(u8, u8), &char)> = t.pages[&'J'].double.iter().collect();
+            cells.sort();
+            if let Some((_, c)) = cells.iter().find(|((lead, trail), c)| *lead >= 0xf0 && (0x81..=0x9f).contains(trail) && !alpha.contains(c)) {
+                alpha.push(**c);
+            }
+        }
+        alpha.push('8');
+        alpha.push('L');
+        let maxlen = if tier == Tier::Thorough { 6 } else { 5 };
         let k = alpha.len() as u64;
         let mut starts = vec![];
         let mut count = 0u64;
@@ -241,7 +301,7 @@ pub fn sites(tier: Tier) -> Vec<Site> {
         let alpha = Arc::new(alpha);
         let a2 = alpha.clone();
         sites.push(Site::new("strings", count,
-            &format!("all strings of length 0..={maxlen} over {{ASCII, one character owned by each of the ten pages, a character shared by several pages, a character in no page}} ({} symbols)", a2.len()),
+            &format!("all strings of length 0..={maxlen} over {{ASCII, one character owned by each of the ten pages, a character shared by several pages, a character in no page, a double-byte character with trail byte 0x5E from each double-byte page, one with a lead-like trail byte, '8', 'L'}} ({} symbols)", a2.len()),
             move |i, acc| {
                 let mut l = 0;
                 for (q, s) in starts.iter().enumerate() {
@@ -282,40 +342,34 @@ pub fn sites(tier: Tier) -> Vec<Site> {
                     b.push(alpha[(j % k) as usize]);
                     j /= k;
                 }
-                if b.windows(2).any(|w| w == b"^^") {
-                    return;
+                judge_bytes(&tt, &b, i, "bytes", acc);
+            }));
+    }
+
+    // 5a. LONG byte strings: a unit repeated up to 260 bytes - "any number" of markers, resets, escaped
+    // carets, double-byte characters with caret-like or lead-like trail bytes - behind 0..2 plain bytes
+    {
+        let units: Vec<Vec<u8>> = vec![
+            b"^L".to_vec(), b"^J".to_vec(), b"^8".to_vec(), b"^".to_vec(), b"^Ja".to_vec(), b"^E\xe9".to_vec(),
+            vec![0x83, 0x5e], vec![b'^', b'J', 0x83, 0x5e], vec![0x5e, 0x83], vec![b'^', b'K', 0x94, 0xee],
+            vec![b'^', b'J', 0xfa, 0x5e], vec![b'^', b'H', 0xa1, 0x5e], vec![b'^', b'S', 0x81, 0x5e, b'8'], b"a^C\xf8".to_vec(),
+            b"^L^G^C^E^T^B^J^S^K^H".to_vec(), vec![0xff],
+        ];
+        let prefixes: Vec<Vec<u8>> = vec![vec![], b"a".to_vec(), b"ab".to_vec(), vec![0xe9]];
+        let reps: Vec<usize> = vec![1, 2, 3, 7, 31, 32, 33, 63, 64, 65, 66, 100, 127, 128, 129, 130];
+        let n = (units.len() * prefixes.len() * reps.len()) as u64;
+        let tt = t.clone();
+        sites.push(Site::new("bytes-long", n,
+            "{nothing, a, ab, one high byte} followed by one of 16 units (markers, resets, lone carets, page switches with text, double-byte characters with caret-like / lead-like trail bytes, all ten markers in a row) repeated 1..130 times (up to ~2.6 kB)",
+            move |i, acc| {
+                let u = &units[(i as usize) % units.len()];
+                let p = &prefixes[(i as usize / units.len()) % prefixes.len()];
+                let r = reps[i as usize / (units.len() * prefixes.len())];
+                let mut b = p.clone();
+                for _ in 0..r {
+                    b.extend_from_slice(u);
                 }
-                acc.eval();
-                let replay = json!({"site": "bytes", "index": i, "input": hex(&b)});
-                let got = match guard(|| to_lossy_string(&b).to_string()) {
-                    Ok(g) => g,
-                    Err(p) => {
-                        acc.class("decode-panic");
-                        acc.violate(i, "C10|decode|panic".into(), format!("to_lossy_string({}) panicked: {p}", hex(&b)), replay);
-                        return;
-                    },
-                };
-                let Some(want) = tt.ref_decode(&b) else { acc.class("reference-undefined"); return; };
-                // cell identity of the double-byte pages is judged by the table sites (by agreement
-                // ratio); here only the structure matters once a DBCS page has been selected
-                let dbcs_used = b.windows(2).any(|w| w[0] == b'^' && matches!(w[1], b'J' | b'S' | b'K' | b'H'));
-                let norm = |s: &str| -> String { s.chars().map(|c| if (c as u32) < 0x80 { c } else { '#' }).collect() };
-                if got == want || (dbcs_used && norm(&got) == norm(&want) && !got.contains('\u{fffd}')) {
-                    acc.class("matches");
-                    acc.key(h64(&b));
-                    return;
-                }
-                acc.class("differs");
-                let bom = b.windows(2).any(|w| w == [0xff, 0xfe] || w == [0xfe, 0xff]) || b.windows(3).any(|w| w == [0xef, 0xbb, 0xbf]);
-                let lost8 = want.matches("^8").count() != got.matches("^8").count();
-                let letters: String = {
-                    let mut v: Vec<char> = b.windows(2).filter(|w| w[0] == b'^' && LETTERS.contains(&(w[1] as char))).map(|w| w[1] as char).collect();
-                    v.sort(); v.dedup(); v.into_iter().collect()
-                };
-                let sig = if bom { "C10|decode|byte-order-mark-sniffed".to_string() }
-                    else if lost8 { "C10|decode|caret-8-not-kept".to_string() }
-                    else { format!("C10|decode|differs-from-windows-page|markers-{letters}") };
-                acc.violate(i, sig, format!("to_lossy_string({}) = {got:?}, the Windows pages give {want:?}", hex(&b)), replay);
+                judge_bytes(&tt, &b, i, "bytes-long", acc);
             }));
     }
 
